@@ -304,6 +304,25 @@ def check(ctx):
     ctx.ob("C08.R4", hiv, "the initial-values epoch appends the position extracted from the "
                           "initial model states (tracked keys, per chain) with a time axis",
            ok, detail=short(apps[0]) if apps else "no append", stmt="initial sample")
+    sne_ = method(repo, eng, "sample_next_epoch")
+    rsn = evaluate(repo, sne_)
+    type_t = ("a", ("a", ("a", SELF, "current_epoch"), "config"), "type")
+    INIT_ = ("cmp", "==", type_t, ("g", f"{ETYPE}.INITIAL_VALUES"))
+    hcalls = [cond for t, _, cond in rsn.calls
+              if t == ("call", ("a", SELF, "_handle_inital_values_epoch"), (), ())]
+    ctx.ob("C08.R4", sne_, "sample_next_epoch records the initial values exactly when the "
+                           "epoch is the INITIAL_VALUES epoch", len(hcalls) == 1
+           and [(a, p_) for a, p_ in hcalls[0]] == [(INIT_, True)],
+           detail=str([[pretty(a)[:60] + "=" + str(p_) for a, p_ in cd] for cd in hcalls]),
+           stmt="initial values recorded")
+    adv_t = [t for t, _, cond in rh.calls if t[0] == "call" and t[1][0] == "a"
+             and t[1][2] == "advance_time" and not cond]
+    done = [val for loc, val, _, cond in rh.stores if loc == ("a", SELF, "_epoch") and not cond]
+    ctx.ob("C08.R4", hiv, "the initial-values epoch consumes its single time step and is "
+                          "closed (epoch clock advanced by 1, no epoch left active)",
+           len(adv_t) == 1 and adv_t[0][2] == (c(1),) and done == [c(None)],
+           detail=f"advance_time {[short(t, 60) for t in adv_t]}; _epoch stores {done}",
+           stmt="initial epoch closed")
     atd = repo.func("liesel.goose.engine._add_time_dimension")
     rat = evaluate(repo, atd).ret()
     ok = (rat is not None and is_call(rat, "jax.tree_util.tree_map") and rat[2][0][0] == "lambda"
